@@ -77,6 +77,11 @@ CHECKS = {
             "The harness owns the hash seed: each pool of generated scripts (names hoisted out of if/elif/else/while/for/try in random order, several buttons, animated LCDs, ultrasonic sensors, helpers with several signatures) is transpiled by fresh interpreters under 12 hash seeds and inside generated histories of 2-12 transpilations; all outputs for a script must be byte-identical and module-level containers unchanged.",
             "Other CPython versions/platforms are represented only by hash-seed variation.",
             "DESIGN.md 3/C10"),
+    "C11": ("exploration",
+            "fuzzing in supervised child processes: hostile-expression templates with canaries, token/line-mutated valid Python, random text/bytes and a coverage-guided atheris campaign; oracle = audit hook + canaries + exception-type rule + per-case CPU budget + module-state fingerprint",
+            "Every input is transpiled inside a forked child with sys.addaudithook armed around parse/emit (any exec/import/open/os/subprocess/socket event is a violation), canary files that only exist if user expressions were evaluated, the rule 'ValueError, or SyntaxError only when ast.parse rejects the text', a soft RLIMIT_CPU advanced by 10 s per case (the kernel ends a worker stuck in big-int arithmetic) and a fingerprint of module-level containers.",
+            "compile audit events from ast.parse are not judged; atheris part is skipped (counted) if the wheel cannot be installed.",
+            "DESIGN.md 3/C11"),
 }
 
 PENDING = {}
